@@ -264,6 +264,12 @@ fn oracle_wellformed(case: &[u8], obs: &mut Obs, f: Flavor) -> Result<(), String
             queries.push(q);
         }
     }
+    // present names with a NUL appended (what CStr::to_bytes_with_nul would hand over): no symbol carries such a name
+    for k in 0..b.all.len().min(6) {
+        let mut q = b.all[b.all.len() - 1 - k].clone();
+        q.push(0);
+        queries.push(q);
+    }
     for q in &queries {
         let present: Vec<usize> = (b.first_hashed..b.all.len()).filter(|i| &b.all[*i] == q).collect();
         let r = with_endian!(b.spec, |e| find(f, e, class, &b.hash, &b.tab.symtab, &b.tab.strtab, q));
@@ -545,7 +551,7 @@ pub fn property_c11() -> Property {
     Property {
         id: "C11",
         level: "exploration",
-        rule: "wellformed: cases are (class, order, fixed/run-time spec, name set of 0..300 names with duplicates, empty name, bytes>=0x80, constructed djb2 collisions (a,b)->(a+1,b-33), collisions between a name and a LONGER name having it as prefix and names whose hash is 0 or 1 (both by meet-in-the-middle), proper suffixes of other names (tail-merged string tables), pairs P, X adjacent in the string table with djb2(P\\0X) = djb2(P), rarely 4 200..7 200 symbols on 1..3 chains, low-bit neighbours and same-bucket names, nbucket, bloom words 1..64 (powers of two), shift 0..31, symoffset 1..4, shared or unshared string-table entries); the section is built per the GNU format by an independent builder; queries = every symbol name plus absent names (colliding, same-bucket, low-bit neighbours, prefixes, extensions, random, and the concatenation of two adjacent string-table entries with the NUL between them); oracle = linear scan: Some((i,s)) only with i a hashed index carrying the name and s == symtab[i], None iff no hashed symbol carries the name, never Err. sound: the same after 1..8 random corruptions of hash section / symtab / strtab (or raw bytes): Some((i,s)) => symtab[i]==s and name(s)==query. hashfn: gnu_hash == djb2 reference exhaustively on all strings of length<=3 over a 16-symbol alphabet and on random strings up to 64 bytes. Non-trivial (wellformed): a table with >=2 symbols in one chain and at least one absent query whose hash collides (ignoring bit 0) with a present one; distinct by table hash.",
+        rule: "wellformed: cases are (class, order, fixed/run-time spec, name set of 0..300 names with duplicates, empty name, bytes>=0x80, constructed djb2 collisions (a,b)->(a+1,b-33), collisions between a name and a LONGER name having it as prefix and names whose hash is 0 or 1 (both by meet-in-the-middle), proper suffixes of other names (tail-merged string tables), pairs P, X adjacent in the string table with djb2(P\\0X) = djb2(P), rarely 4 200..7 200 symbols on 1..3 chains, low-bit neighbours and same-bucket names, nbucket, bloom words 1..64 (powers of two), shift 0..31, symoffset 1..4, shared or unshared string-table entries); the section is built per the GNU format by an independent builder; queries = every symbol name plus absent names (colliding, same-bucket, low-bit neighbours, prefixes, extensions, random, the concatenation of two adjacent string-table entries with the NUL between them, and present names with a NUL appended); oracle = linear scan: Some((i,s)) only with i a hashed index carrying the name and s == symtab[i], None iff no hashed symbol carries the name, never Err. sound: the same after 1..8 random corruptions of hash section / symtab / strtab (or raw bytes): Some((i,s)) => symtab[i]==s and name(s)==query. hashfn: gnu_hash == djb2 reference exhaustively on all strings of length<=3 over a 16-symbol alphabet and on random strings up to 64 bytes. Non-trivial (wellformed): a table with >=2 symbols in one chain and at least one absent query whose hash collides (ignoring bit 0) with a present one; distinct by table hash.",
         assumptions: &["duplicate names: any index carrying the queried name is accepted", "well-formed tables use power-of-two bloom sizes and shifts 0..31 as the GNU format requires"],
         subs: vec![
             Sub::new("wellformed", gnu_well, 2600, 200_000, 8_000_000),
@@ -561,7 +567,7 @@ pub fn property_c12() -> Property {
     Property {
         id: "C12",
         level: "exploration",
-        rule: "wellformed: cases are (class, order, fixed/run-time spec, name set of 0..300 names with duplicates, empty name, bytes>=0x80, names longer than 6 bytes, elf_hash collisions found by search, names that drive the running hash to 0x0fffffff before the next shift, proper suffixes of other names (tail-merged string tables), rarely 4 200..7 200 symbols on 1..3 chains, same-bucket names, nbucket 1..64, head/tail/mixed chain insertion); the .hash section is built per the gABI (nchain = symbol count, chains end at STN_UNDEF); queries = every symbol name plus absent names incl. colliding ones; oracle = linear scan over symbols 1..n: Some((i,s)) only with i>=1 carrying the name and s == symtab[i], None iff absent (so symbol 0 is never returned), never Err. sound: same after random corruption: Some((i,s)) => symtab[i]==s and name(s)==query. hashfn: sysv_hash == gABI elf_hash (32-bit arithmetic) exhaustively on all strings of length<=3 over a 16-symbol alphabet incl. high bytes and on random strings up to 64 bytes. Non-trivial (wellformed): >=2 symbols in one chain and an absent colliding query; distinct by table hash.",
+        rule: "wellformed: cases are (class, order, fixed/run-time spec, name set of 0..300 names with duplicates, empty name, bytes>=0x80, names longer than 6 bytes, elf_hash collisions found by search, names that drive the running hash to 0x0fffffff before the next shift, proper suffixes of other names (tail-merged string tables), rarely 4 200..7 200 symbols on 1..3 chains, same-bucket names, nbucket 1..64, head/tail/mixed chain insertion); the .hash section is built per the gABI (nchain = symbol count, chains end at STN_UNDEF); queries = every symbol name plus absent names incl. colliding ones and present names with a NUL appended; oracle = linear scan over symbols 1..n: Some((i,s)) only with i>=1 carrying the name and s == symtab[i], None iff absent (so symbol 0 is never returned), never Err. sound: same after random corruption: Some((i,s)) => symtab[i]==s and name(s)==query. hashfn: sysv_hash == gABI elf_hash (32-bit arithmetic) exhaustively on all strings of length<=3 over a 16-symbol alphabet incl. high bytes and on random strings up to 64 bytes. Non-trivial (wellformed): >=2 symbols in one chain and an absent colliding query; distinct by table hash.",
         assumptions: &["duplicate names: any index carrying the queried name is accepted"],
         subs: vec![
             Sub::new("wellformed", sysv_well, 2600, 200_000, 8_000_000),
